@@ -398,8 +398,28 @@ def identifiers(rep, dname):
         oid = f'C04.ident.dec.{dname}.{rname}'
         clause = 'forall w in L(ID) & region: the single part produced for w is Den(w) (case preserved, back-quotes removed, dots inside back-quotes kept)'
         if not ok_shape:
-            rep.failed(oid, 'fst', f'path_str_to_parts no longer has the shape [m[0].strip("`") for m in finditer]: string operations found: {[ast.unparse(s)[:40] for s in strips]}',
-                       function=fn, clause=clause, replay=replay_ident_decode(dname))
+            # the function is organised differently (helper, generator, capture groups ...): that alone says nothing about the property. The transducer
+            # argument needs the recognised shape, so the obligation is left open (soft) and the real function is compared with the denotation on every
+            # word of the region up to length 6 over the small alphabet - a difference is a violation with its input
+            badw = None
+            for k in range(1, 7):
+                for tup in itertools.product(ALPHABET[:10], repeat=k):
+                    w = ''.join(tup)
+                    if R.accepts(w):
+                        try:
+                            got = idmod.path_str_to_parts(w)
+                        except Exception as e_:
+                            got = f'{type(e_).__name__}: {e_}'
+                        if got != [next(iter(Den.apply(w)))]:
+                            badw = (w, got)
+                            break
+                if badw:
+                    break
+            if badw:
+                rep.failed(oid, 'fst', f'{badw[0]!r} is decoded as {badw[1]!r}', function=fn, clause=clause, replay=replay_ident_decode(dname, badw[0]))
+            else:
+                rep.undecided(oid, 'fst', 'path_str_to_parts is not of the shape [m[0].strip("`") for m in finditer] the transducer argument reads; the real function agrees with the '
+                              'denotation on every word of the region up to length 6 (bounded stand-in)', function=fn, clause=clause, soft=True)
             continue
         r = equivalent(Strip.on_domain(R), Den.on_domain(R))
         if r[0] is True:
